@@ -203,6 +203,42 @@ func VerifParseKVs(prefix string, toks []string) []internal.KV {
 	return kvs
 }
 
+// VerifDumpContainer prints container.values and container.mapping canonically (white box).
+func VerifDumpContainer(sub *Subscriber) (string, string) {
+	c := sub.items
+	c.lock.Lock()
+	defer c.lock.Unlock()
+	type ent struct {
+		id int
+		s  string
+	}
+	var vs []ent
+	for v, keys := range c.values {
+		ids := make([]string, 0, len(keys))
+		for _, k := range keys {
+			ids = append(ids, VerifKeyID(k))
+		}
+		id, _ := strconv.Atoi(VerifValID(v))
+		vs = append(vs, ent{id, VerifValID(v) + ":[" + strings.Join(ids, ".") + "]"})
+	}
+	sort.Slice(vs, func(i, j int) bool { return vs[i].id < vs[j].id })
+	var ms []ent
+	for k, v := range c.mapping {
+		id, _ := strconv.Atoi(VerifKeyID(k))
+		ms = append(ms, ent{id, VerifKeyID(k) + ":" + VerifValID(v)})
+	}
+	sort.Slice(ms, func(i, j int) bool { return ms[i].id < ms[j].id })
+	a := make([]string, len(vs))
+	for i, e := range vs {
+		a[i] = e.s
+	}
+	b := make([]string, len(ms))
+	for i, e := range ms {
+		b[i] = e.s
+	}
+	return strings.Join(a, ";"), strings.Join(b, ",")
+}
+
 // VerifRecorder is an UpdateListener that records the listener-level events in order.
 type VerifRecorder struct {
 	mu  sync.Mutex
@@ -325,7 +361,8 @@ func VerifC13Gen(r *verifh.Rng, nsecQuick, nsecThorough int, bigEvery int) []ver
 		nv := r.Range(1, 4)
 		big := bigEvery > 0 && i%bigEvery == bigEvery-1
 		if big {
-			nk, nv = r.Range(30, 45), r.Range(30, 45)
+			nk = r.Range(30, 45)
+			nv = nk + r.Intn(4)
 		}
 		excl := r.Chance(2, 5)
 		kv := func() string { return fmt.Sprintf("%d:%d", r.Intn(nk), r.Intn(nv)) }
@@ -366,12 +403,16 @@ func VerifC13Gen(r *verifh.Rng, nsecQuick, nsecThorough int, bigEvery int) []ver
 		}
 		cur := map[int]int{}
 		var ops []string
-		if r.Chance(1, 2) {
+		if big || r.Chance(1, 2) {
 			// the first load after (re)connect: a snapshot applied to an empty view
 			initial := snapshot(cur)
 			if big {
 				for k := 0; k < nk; k++ {
-					initial = append(initial, fmt.Sprintf("%d:%d", k, r.Intn(nv)))
+					v := k // mostly distinct values: more than 32 addresses
+					if r.Chance(1, 10) {
+						v = r.Intn(nv)
+					}
+					initial = append(initial, fmt.Sprintf("%d:%d", k, v))
 				}
 				initial = dedupKeys(initial, r)
 			}
